@@ -53,7 +53,7 @@ def run(ctx):
     if any(k in ctx.build_errors for k in ("harness", "ocaml", "shim")):
         ties.append({"what": "correspondence machinery did not build", "detail": list(ctx.build_errors)})
         return C.finish(ctx, PROPS, aud, {"evaluations": 0, "distinct_nontrivial": 0, "samples": []}, violations, ties, ASSUME, level="exploration")
-    res = K.explore(ctx, observer_factory=Observer, only=lambda f: "nodir" not in f["name"] and "maintenance-ensure-vs-ensure" not in f["name"])
+    res = K.explore(ctx, observer_factory=Observer, only=lambda f: "nodir" not in f["name"] and "adversary" not in f["name"] and "maintenance-ensure-vs-ensure" not in f["name"])
     agree, nontriv, points, reads = 0, 0, 0, 0
     kinds = {}
     for fam, kind, plan, cr, diffs, obs, ml in res:
@@ -115,13 +115,54 @@ def run(ctx):
                 violations.append({"what": "when %s fails with %s during a lookup, the returned handle stands at offset %s of %s: read to the end it yields a truncated value" % (call, er, d.get("off"), d.get("content")),
                                    "classification": {"kind": "handle-not-at-start", "call": call},
                                    "replay": {"kind": "fault", "scenario": L, "fault_seq": seq, "errno": er, "result": impl.results[1][1]}})
+    # the copies the library itself makes (promotion from a read-only level; a value populated
+    # into a temp file): each write / copy call failing once (disk full, I/O error) - whatever the
+    # outcome of that call, every handle obtained for the key afterwards reads a COMPLETE value
+    from . import gen as G, trace as T
+    KEYC = ("kk", 7, 9)
+    cjobs = []
+    for w in (("plain", 300), ("sharded", 4, 1200)):
+        for pre, opl in (("secondary", G.op(0, "ensure", KEYC, "val:%s:3" % K.BIG2)), ("miss", G.op(0, "ensure", KEYC, "val:%s:3" % K.BIG1))):
+            L = G.header(w, (("plain",),), "none")
+            if pre == "secondary":
+                L.append(G.plant("r0/" + KEYC[0], K.BIG1))
+            L += [G.NOFIRE, opl, G.NOFIRE, G.op(0, "get", KEYC), "snap"]
+            clean = S.run_impl(L)
+            if not clean.steps:
+                continue
+            st0 = clean.steps[0]
+            can, seqs = T.canon(st0["events"], with_seq=True)
+            for k, t in enumerate(can):
+                if t[0] in ("write", "copy", "read"):
+                    for er in ("ENOSPC", "EIO"):
+                        cjobs.append((w, pre, L, seqs[k], k, t[0], er))
+    complete = {K.fnv_show(K.BIG1), K.fnv_show(K.BIG2)}
+    for w, pre, L, seq, k, call, er in cjobs:
+        try:
+            impl = S.run_impl(L, fault=(seq, er))
+        except Exception as ex:
+            ties.append({"what": "copy-fault run failed", "detail": repr(ex)}); continue
+        for st in sorted(impl.results):
+            cls, d = S.fields(impl.results[st][1])
+            if cls == "OkSome":
+                reads += 1
+                if d.get("content") not in complete:
+                    violations.append({"what": "after the %s of a library-made copy failed once with %s, a handle for the key reads %s: not a complete value" % (call, er, d.get("content")),
+                                       "classification": {"kind": "partial-read-under-fault", "call": call, "situation": pre},
+                                       "replay": {"kind": "fault", "scenario": L, "fault_seq": seq, "errno": er, "result": impl.results[st][1]}})
+        for l in (impl.snaps[-1] if impl.snaps else []):
+            f = l.split(" ")
+            if f[1] == "f" and f[0].startswith("w/") and ".kismet_temp/" not in f[0] and f[7] not in complete:
+                violations.append({"what": "after the %s of a library-made copy failed once with %s, %s holds %s: not a complete value" % (call, er, f[0], f[7]),
+                                   "classification": {"kind": "partial-final-under-fault", "call": call, "situation": pre},
+                                   "replay": {"kind": "fault", "scenario": L, "fault_seq": seq, "errno": er}})
     seen, uniq = set(), []
     for v in violations:
         k = tuple(sorted(v["classification"].items()))
         if k not in seen:
             seen.add(k); uniq.append(v)
-    cov = {"evaluations": len(res) + len(fres), "distinct_nontrivial": nontriv, "lookup_fault_runs": len(fres),
-           "rule": "families {set|get, set|set, put|put, put|set, ensure|ensure, ensure|set, touch|set, promotion from a secondary cache|get, promotion|promotion, get_or_update Replace|get, maintenance (capacity exceeded, trigger firing)|get, |set, |maintenance} x front-end {plain, sharded} with multi-chunk values of 5000 and 7000 bytes: for EVERY filesystem-call boundary of every participant, a context switch to the other participant(s) which run to completion (thorough: two switches at every pair of boundaries, three participants, random schedules). Oracles: every returned handle reads a complete value of its key, at return and again after the others ran; at every scheduling point every key-named file on disk is complete and read-only; final tree likewise; each schedule replayed on the pool model and compared; plus lookups of a not-yet-marked hit whose bookkeeping calls fail (EPERM as for a reader that does not own the file): the handle still yields the whole value. Non-trivial = at least two context switches.",
+    cov = {"evaluations": len(res) + len(fres) + len(cjobs), "copy_fault_runs": len(cjobs), "distinct_nontrivial": nontriv, "lookup_fault_runs": len(fres),
+           "rule": "families {set|get, set|set, put|put, put|set, ensure|ensure, ensure|set, touch|set, promotion from a secondary cache|get, promotion|promotion, get_or_update Replace|get, maintenance (capacity exceeded, trigger firing)|get, |set, |maintenance} x front-end {plain, sharded} with multi-chunk values of 5000 and 7000 bytes: for EVERY filesystem-call boundary of every participant, a context switch to the other participant(s) which run to completion (thorough: two switches at every pair of boundaries, three participants, random schedules). Oracles: every returned handle reads a complete value of its key, at return and again after the others ran; at every scheduling point every key-named file on disk is complete and read-only; final tree likewise; each schedule replayed on the pool model and compared; plus lookups of a not-yet-marked hit whose bookkeeping calls fail (EPERM as for a reader that does not own the file): the handle still yields the whole value; plus promotion / population copies with each read, write or copy call failing once (ENOSPC, EIO): every handle obtained afterwards and every key-named file is complete. Non-trivial = at least two context switches.",
            "samples": [{"family": f["name"], "kind": k} for f, k, *_ in res[:3]], "traces_validated_against_impl": agree,
            "schedule_kinds": kinds, "scheduling_points_inspected": points, "handles_read": reads}
     if not ctx.quick():
